@@ -64,6 +64,13 @@ fn disarm() { CASE_DEADLINE_MS.store(0, Ordering::SeqCst); }
 /// analysis took and did not give back (`self.top_path.get_or_insert_with(Vec::new).clear()`, the repair of the C10
 /// defect) or does it only clear an existing one (`self.top_path.as_mut().map(|p| p.clear())`)?  Comments are
 /// ignored; an unreadable source counts as `cur`.
+/// does the linked `MorphemeList::lookup` record the subset of the call in the list (repair 171a12c)? (source probe)
+fn impl_lookup_sets_subset() -> bool {
+    let src = std::fs::read_to_string(format!("{}/src/analysis/mlist.rs", crate::c07::repo_sudachi_dir())).unwrap_or_default();
+    let code: String = src.lines().map(|l| l.split("//").next().unwrap_or("")).collect::<Vec<_>>().join("\n");
+    match code.find("pub fn lookup") { Some(i) => code[i..].chars().take(600).collect::<String>().contains(".subset = subset"), None => false }
+}
+
 fn impl_reset_variant() -> &'static str {
     static V: std::sync::OnceLock<&'static str> = std::sync::OnceLock::new();
     *V.get_or_init(|| {
@@ -115,6 +122,22 @@ fn rle(s: &str) -> String {
     }
     out.iter().map(|(w, k)| format!("{}x{}", w, k)).collect::<Vec<_>>().join(".")
 }
+
+/// identity of one result node, independent of the input buffer the list currently shares (a stale list can be read):
+/// position in the normalised text (chars and bytes), word id, cumulative cost
+fn node_ids(l: &MorphemeList<Dic>) -> Vec<u64> {
+    (0..l.len()).map(|i| {
+        let m = l.get(i);
+        let r = m.verif_node_range();
+        let w = m.word_id().as_raw() as u64;
+        let c = m.total_cost() as i64 as u64 & 0xffff_ffff;
+        (((r.0 as u64 * 1000003 + r.1 as u64 * 10007 + r.2 as u64 * 101 + r.3 as u64) % 2147483647) * 31 + w % 1000000007 + c * 7) % 2147483647
+    }).collect()
+}
+
+fn enc_nodes(v: &[u64]) -> String { format!("q{}", join(v.iter(), ",")) }
+
+fn hash_nodes(v: &[u64]) -> u64 { v.iter().fold(7u64, |h, x| (h * 1000003 + x + 1) % 2147483647) }
 
 fn out_class(e: &SudachiError) -> String {
     match e {
@@ -213,8 +236,26 @@ fn fresh_facts(dic: Dic, text: &str, mode: Mode, req: Option<u32>) -> Option<Fre
         }
         per.iter().map(|v| join(v.iter(), ",")).collect::<Vec<_>>().join(";")
     };
+    let norm_empty = tables.state == 2 && tables.modified.is_empty();
+    let subset = st.3;
+    let mut ids: Option<Vec<u64>> = None;
+    let toks = if outcome == "ok" {
+        let c = catch(|| {
+            let mut ml = MorphemeList::empty(dic);
+            match ml.collect_results(&mut tok) {
+                Err(e) => (Err(out_class(&e)), None),
+                Ok(()) => { let ids = node_ids(&ml); (Ok(toks_of(&ml)), Some(ids)) }
+            }
+        });
+        Some(match c { Ok((x, i)) => { ids = i; x }, Err(p) => {
+            // reading the morphemes panics (word info of a broken dictionary): the node identities do not need them
+            let i = catch(|| { let mut t2 = fresh_tok(dic, mode, req); t2.reset().push_str(text); let _ = t2.do_tokenize(); let mut ml = MorphemeList::empty(dic); let _ = ml.collect_results(&mut t2); node_ids(&ml) });
+            ids = i.ok();
+            Err(format!("PANIC {}", p))
+        } })
+    } else { None };
     let tail = match (outcome.as_str(), st.2) {
-        ("ok", Some(n)) if reached_lattice => format!("p{}", n),
+        ("ok", Some(n)) if reached_lattice => match &ids { Some(v) if v.len() == n => enc_nodes(v), _ => format!("p{}", n) },
         (_, None) if outcome == "PANIC" => "x".to_string(),
         (_, None) => "f".to_string(),
         _ => "-".to_string(),
@@ -223,18 +264,6 @@ fn fresh_facts(dic: Dic, text: &str, mode: Mode, req: Option<u32>) -> Option<Fre
         "A:{}:{}:{}:{}:{}",
         rle(text), if plugs.is_empty() { "-".to_string() } else { plugs.join(",") }, eos.is_some() as u8, tail, cands
     );
-    let norm_empty = tables.state == 2 && tables.modified.is_empty();
-    let subset = st.3;
-    let toks = if outcome == "ok" {
-        let c = catch(|| {
-            let mut ml = MorphemeList::empty(dic);
-            match ml.collect_results(&mut tok) {
-                Err(e) => Err(out_class(&e)),
-                Ok(()) => Ok(toks_of(&ml)),
-            }
-        });
-        Some(match c { Ok(x) => x, Err(p) => Err(format!("PANIC {}", p)) })
-    } else { None };
     Some(Fresh { enc, outcome, tables, rows, size, eos, path_len: st.2, toks, subset, norm_empty })
 }
 
@@ -257,7 +286,7 @@ fn dump(tok: &StatefulTokenizer<Dic>, lists: &[MorphemeList<Dic>], outcome: &str
     let ls = if lists.is_empty() { "-".to_string() } else {
         lists.iter().map(|l| {
             let o = catch(|| l.surface().len());
-            format!("{}.{}.{}", l.len(), l.subset().bits(), match o { Ok(n) => n.to_string(), Err(_) => "c".to_string() })
+            format!("{}.{}.{}.{}", l.len(), l.subset().bits(), match o { Ok(n) => n.to_string(), Err(_) => "c".to_string() }, hash_nodes(&node_ids(l)))
         }).collect::<Vec<_>>().join(",")
     };
     format!(
@@ -440,9 +469,17 @@ fn gen_analyse_text(rng: &mut Rng, c: &Ctx, thorough: bool) -> (String, &'static
         if let Some(b) = &c.bad_text { return (format!("{}{}", if rng.chance(1, 2) { word(rng) } else { String::new() }, b), "bad"); }
         return (format!("{}\u{378}\u{7}𠮷Ω", short(rng, 4)), "odd");
     }
-    // the list-based Lean model of the lattice is quadratic in the text length (75 s for 16383 characters): at-limit
-    // texts are rare, 4000-character texts stand in for them otherwise
-    if k < 94 && thorough { return if rng.chance(1, 12) { ("あ".repeat(16383), "at-limit") } else { ("あ".repeat(4000), "long-4000") }; }
+    // texts AT the limits: 49149 raw bytes (16383 three-byte characters), and - with the default input plugin - up to 65535
+    // bytes after normalisation (㍿ -> 株式会社: 5461 units = 65532 bytes, a prefix of 0..5 ASCII letters straddles the
+    // limit).  The executed Lean model keeps the lattice rows in arrays (Model/RecycleFast.lean, proved equal to the
+    // list model), so these cost milliseconds; in the quick tier every fifth draw of this slot takes one.
+    if k < 94 && (thorough || rng.chance(1, 5)) {
+        if c.has_default && rng.chance(1, 3) {
+            let n = 5400 + rng.below(62);
+            return (format!("{}{}", "a".repeat(rng.below(6)), "㍿".repeat(n)), "long-normalised");
+        }
+        return ("あ".repeat(16383 - rng.below(2)), "at-limit");
+    }
     if k < 97 { let reps = rng.range(30, 60); return ((0..reps).map(|_| short(rng, 8)).collect(), "long"); }
     (word(rng), "word")
 }
@@ -616,6 +653,8 @@ fn exec(run: &mut Run, idx: usize, c: &Ctx, mode0: usize, ops: &[Op], desc: &str
                 analyses += 1;
                 run.bump(&format!("analysis:{}", outcome));
                 if fresh.norm_empty { run.bump("analysis:normalised-empty"); }
+                if outcome == "ok" && text.len() >= 49000 { run.bump("analysis:ok-at-raw-limit(>=49000 bytes)"); }
+                if outcome == "ok" && fresh.tables.modified.len() >= 64000 { run.bump("analysis:ok-at-normalised-limit(>=64000 bytes)"); }
                 if let Some(p) = prev_len { if text.len() < p { shrink = true; } }
                 prev_len = Some(text.len());
                 if last_failed && outcome == "ok" { fail_then_ok = true; }
@@ -676,7 +715,12 @@ fn exec(run: &mut Run, idx: usize, c: &Ctx, mode0: usize, ops: &[Op], desc: &str
             }
             Op::Split(i, pick, m, j) => {
                 if lists[*i].len() == 0 { continue; }
-                let index = pick % lists[*i].len();
+                // prefer a morpheme that HAS a split in this mode (tried on a scratch clone of the list, which shares the
+                // input part and leaves every object of the history untouched); otherwise the drawn index
+                let n = lists[*i].len();
+                let index = (0..n.min(12)).map(|d| (pick + d) % n).find(|&ix| {
+                    catch(|| { let mut scratch = lists[*i].empty_clone(); matches!(lists[*i].split_into(mode_of(*m), ix, &mut scratch), Ok(true)) }).unwrap_or(false)
+                }).unwrap_or(pick % n);
                 let before = lists[*j].len();
                 let r = {
                     let (src, dst): (&MorphemeList<Dic>, &mut MorphemeList<Dic>) = if i < j {
@@ -696,7 +740,7 @@ fn exec(run: &mut Run, idx: usize, c: &Ctx, mode0: usize, ops: &[Op], desc: &str
                     break;
                 }
                 let k = lists[*j].len() - before;
-                encs.push(format!("P:{}:{}:{}:{}:{}", i, index, m, j, k));
+                encs.push(format!("P:{}:{}:{}:{}:{}", i, index, m, j, enc_nodes(&node_ids(&lists[*j])[before..])));
                 states.push(dump(&tok, &lists, &outcome));
                 hist.push(format!("split_into({},{},{:?},{})+{}", i, index, mode_of(*m), j, k));
                 run.bump(if k > 0 { "split:some" } else { "split:none" });
@@ -707,7 +751,7 @@ fn exec(run: &mut Run, idx: usize, c: &Ctx, mode0: usize, ops: &[Op], desc: &str
                 let outcome = match &r { Ok(Ok(_)) => "ok".to_string(), Ok(Err(e)) => out_class(e), Err(_) => "PANIC".to_string() };
                 if outcome == "PANIC" { run.bump("lookup:panic(dropped)"); break; }
                 let k = lists[*j].len() - before;
-                encs.push(format!("L:{}:{}:{}:{}", j, rle(q), k, (outcome == "ok" || outcome == "err:TooLong") as u8));
+                encs.push(format!("L:{}:{}:{}:{}{}", j, rle(q), enc_nodes(&node_ids(&lists[*j])[before..]), (outcome == "ok" || outcome == "err:TooLong") as u8, if impl_lookup_sets_subset() { ":S" } else { "" }));
                 states.push(dump(&tok, &lists, &outcome));
                 hist.push(format!("lookup({},{} bytes)={}", j, q.len(), outcome));
                 run.bump(&format!("lookup:{}", outcome));
@@ -730,6 +774,98 @@ fn exec(run: &mut Run, idx: usize, c: &Ctx, mode0: usize, ops: &[Op], desc: &str
             run.fail(idx, &k, &format!("{} | world={} mode0={:?} history=[{}]", w, desc, mode_of(mode0), hist.join("; ")));
         }
     }
+}
+
+/// Python sessions: a history of `Tokenizer.tokenize(text, mode=, out=)` on ONE Python tokenizer through the built
+/// extension, out lists reused.  Tie: the Lean model of the binding (`World.pyTokenize`) replays the calls and predicts,
+/// after every call, raise / mode / length + word-id content of every list; oracle: every returned list equals what a
+/// fresh Rust tokenizer yields for (text, effective mode), the mode is restored, the interpreter survives.
+fn py_session(run: &mut Run, idx: usize, w: &World, rng: &mut Rng) {
+    let root = std::env::var("VERIF_ROOT").unwrap_or_else(|_| "/verif".to_string());
+    let pkg = format!("{}/.build/py/pkg", root);
+    if !std::path::Path::new(&pkg).join("sudachipy").exists() { run.bump("python-extension-not-built(session skipped)"); return; }
+    w.wd.write("cfg.json", &w.cfg.replacen("{", &format!("{{\"systemDict\":\"system.dic\",\"userDict\":[{}],", (0..w.user_bins.len()).map(|i| format!("\"user{}.dic\"", i)).collect::<Vec<_>>().join(",")), 1));
+    std::fs::write(w.wd.path.join("system.dic"), &w.system_bin).unwrap();
+    for (i, u) in w.user_bins.iter().enumerate() { std::fs::write(w.wd.path.join(format!("user{}.dic", i)), u).unwrap(); }
+    let dic = &w.dic;
+    let mut words: Vec<String> = w.lex.rows.iter().map(|r| r.surface.clone()).collect();
+    words.truncate(12);
+    let c = Ctx { must: 0, dic, has_default: w.input_kinds.contains(&"default"), words, bad_text: None, after_take: false, world: Some(w) };
+    let create_mode = rng.below(3);
+    let names = ["C", "A", "B"];
+    let n = rng.range(5, 10);
+    let mut calls = vec![];
+    let mut encs = vec![];
+    let mut fresh_of: Vec<Fresh> = vec![];
+    let mut nlists = 0usize;
+    let mut hist = vec![];
+    while calls.len() < n {
+        let (mut text, _) = gen_analyse_text(rng, &c, false);
+        // the replay of a Python session uses the list model: keep accepted texts moderate (rejected ones cost nothing)
+        if text.len() <= 49149 && text.chars().count() > 1500 { text = text.chars().take(1500).collect(); }
+        let ov = if rng.chance(2, 5) { Some(rng.below(3)) } else { None };
+        let eff = ov.unwrap_or(create_mode);
+        let fresh = match fresh_facts(dic, &text, mode_of(eff), None) { Some(f) => f, None => continue };
+        let wids: Vec<u64> = match &fresh.toks { Some(Ok(v)) => v.iter().map(|t| t.word_id as u64).collect(), Some(Err(_)) => continue, None => vec![] };
+        let mut f: Vec<String> = fresh.enc.split(':').map(|x| x.to_string()).collect();
+        if f.len() != 6 { continue; }
+        if f[4].starts_with('q') || f[4].starts_with('p') { f[4] = enc_nodes(&wids); }
+        // mostly the SAME list again and again, sometimes another earlier one, sometimes a new one
+        let out = if nlists > 0 && rng.chance(3, 4) { Some(if rng.chance(2, 3) { 0 } else { rng.below(nlists) }) } else { None };
+        if fresh.outcome == "ok" && out.is_none() { nlists += 1; }
+        encs.push(format!("{}@{}@{}", ov.map_or("-".to_string(), |m| m.to_string()), out.map_or("-".to_string(), |j| j.to_string()), f.join(":")));
+        calls.push(serde_json::json!({"text": text, "mode": ov.map(|m| names[m]), "out": out}));
+        hist.push(format!("tokenize({} bytes, mode={:?}, out={:?})", text.len(), ov.map(|m| names[m]), out));
+        fresh_of.push(fresh);
+    }
+    let script = serde_json::json!({"pkg": pkg, "config": w.wd.path.join("cfg.json"), "resource_dir": w.wd.path, "mode": names[create_mode], "calls": calls});
+    let spath = w.wd.path.join("c10_script.json");
+    std::fs::write(&spath, serde_json::to_string(&script).unwrap()).unwrap();
+    let outp = std::process::Command::new("python3").arg(format!("{}/pyharness/run_hist.py", root)).arg(&spath).output();
+    run.bump("kind:python-session");
+    run.bump_by("python-calls", calls.len() as u64);
+    let payload = format!("mode={} fields=1023 reset_variant={} calls={}", create_mode, impl_reset_variant(), encs.join("/"));
+    let key_line = format!("world={} create_mode={} history=[{}]", w.desc.join(" "), names[create_mode], hist.join("; "));
+    let got: Vec<serde_json::Value> = match &outp { Ok(o) => String::from_utf8_lossy(&o.stdout).lines().filter_map(|l| serde_json::from_str(l).ok()).collect(), Err(_) => vec![] };
+    let done = got.last().map_or(false, |v| v.get("done").is_some());
+    if outp.is_err() || !done || got.len() != calls.len() + 1 {
+        run.case(idx, "pysess", &payload, "crash", false);
+        let err = outp.as_ref().map(|o| String::from_utf8_lossy(&o.stderr).chars().rev().take(300).collect::<String>().chars().rev().collect::<String>()).unwrap_or_default();
+        run.fail(idx, "c10:py:crash", &format!("the interpreter did not survive the session ({} of {} answers): {} | {}", got.len(), calls.len(), err, key_line));
+        return;
+    }
+    let mut states = vec![];
+    let mut fails: Vec<(String, String)> = vec![];
+    for (k, g) in got.iter().take(calls.len()).enumerate() {
+        let fr = &fresh_of[k];
+        let oc = g["outcome"].as_str().unwrap_or("?").to_string();
+        let mode = g["mode"].as_str().unwrap_or("?");
+        let lists = g["lists"].as_array().cloned().unwrap_or_default();
+        let ls = if lists.is_empty() { "-".to_string() } else {
+            lists.iter().map(|l| { let ids: Vec<u64> = l[1].as_array().map(|a| a.iter().map(|x| x.as_u64().unwrap_or(0)).collect()).unwrap_or_default(); format!("{}.{}", l[0], hash_nodes(&ids)) }).collect::<Vec<_>>().join(",")
+        };
+        states.push(format!("{};{};{}", oc, names.iter().position(|x| *x == mode).map_or("?".to_string(), |p| p.to_string()), ls));
+        run.bump(&format!("python:{}", oc));
+        let want = if fr.outcome == "ok" { "ok" } else if fr.outcome == "PANIC" { "PANIC" } else { "err" };
+        if oc != want { fails.push(("c10:py:outcome".into(), format!("call #{}: Python {} ({}) but a fresh Rust tokenizer {}", k, oc, g["exc"], fr.outcome))); continue; }
+        if mode != names[create_mode] { fails.push(("c10:py:mode".into(), format!("call #{}: tokenizer mode {} after the call, created with {}", k, mode, names[create_mode]))); }
+        if g.get("out_identity").is_some() { fails.push(("c10:py:out-identity".into(), format!("call #{}: the returned list is not the `out` list", k))); }
+        if g.get("lists_exc").is_some() { fails.push(("c10:py:stale-list-unreadable".into(), format!("call #{}: reading len/word ids of the result lists raised {}", k, g["lists_exc"]))); }
+        if oc == "ok" {
+            if let Some(Ok(exp)) = &fr.toks {
+                let ms = g["ms"].as_array().cloned().unwrap_or_default();
+                let same = ms.len() == exp.len() && ms.iter().zip(exp).all(|(m, t)| {
+                    // Python offsets are code points
+                    m[0].as_u64() == Some(t.begin_c as u64) && m[1].as_u64() == Some(t.end_c as u64) && m[2].as_str() == Some(&t.surface) && m[3].as_u64() == Some(t.word_id as u64)
+                        && m[4].as_str() == Some(&t.norm) && m[5].as_str() == Some(&t.dict_form) && m[6].as_str() == Some(&t.reading)
+                });
+                if !same { fails.push(("c10:py:toks".into(), format!("call #{}: morphemes returned by the reused Python tokenizer/out list differ from a fresh Rust tokenizer's ({} vs {} morphemes)", k, ms.len(), exp.len()))); }
+            }
+        }
+    }
+    run.case(idx, "pysess", &payload, &format!("ok {}", states.join("|")), calls.len() >= 3);
+    let mut seen = std::collections::HashSet::new();
+    for (k, wh) in fails { if seen.insert(k.clone()) { run.fail(idx, &k, &format!("{} | {}", wh, key_line)); } }
 }
 
 pub fn run(run: &mut Run) {
@@ -781,6 +917,12 @@ failure followed by a success; distinct by line".into();
             Ok(w) => w,
             Err(e) => { run.bump(&format!("world-error:{}", e.chars().take(50).collect::<String>())); continue; }
         };
+        if idx % 125 == 57 {
+            arm(idx);
+            py_session(run, idx, w, &mut rng);
+            disarm();
+            continue;
+        }
         let mut words: Vec<String> = w.lex.rows.iter().map(|r| r.surface.clone()).collect();
         words.truncate(12);
         let c = Ctx { must: if w.has_path_rewrite { 0xC } else { 0 }, dic: &w.dic, has_default: w.input_kinds.contains(&"default"), words, bad_text: None, after_take: false, world: Some(w) };
